@@ -63,3 +63,52 @@ Lemma scanner_decoder_disagreed_prefix :
   fst (scan_el prefix_schema w_osm_xml) = [("Bounds", w_bounds)] /\
   decode prefix_schema "OSM" w_osm_xml = Ok (zero prefix_schema FUEL (TNamed "OSM")).
 Proof. split; [|split]; vm_compute; reflexivity. Qed.
+
+(* ---------- known findings of C04 (known_findings.d/C04.json): values of the property's domain
+   the XML formats cannot carry; excluded from wfb, refuted here on the CURRENT schema ---------- *)
+Definition w_date_subsecond : value := Eval vm_compute in
+  mk gen_schema "Note" [("ID", VInt 2); ("DateCreated", VStruct [VTime 1600000000500000000])].
+Definition w_empty_discussion : value := Eval vm_compute in
+  mk gen_schema "Changeset" [("ID", VInt 2); ("Discussion", VPtr (Some (VStruct [VList []])))].
+
+Definition comes_back (T : string) (v : value) : result value :=
+  match encode1 gen_schema T v with Ok e => decode gen_schema T e | Err e => Err e end.
+
+(* class note-date-subsecond: a note date with a sub-second part comes back truncated *)
+Lemma note_date_subsecond_refuted :
+  wfb gen_schema "Note" w_date_subsecond = false /\
+  exists v', comes_back "Note" w_date_subsecond = Ok v' /\ v' <> w_date_subsecond
+             /\ v' = mk gen_schema "Note" [("ID", VInt 2); ("DateCreated", VStruct [VTime 1600000000000000000])].
+Proof.
+  split; [vm_compute; reflexivity|]. eexists. split; [vm_compute; reflexivity|].
+  split; [vm_compute; discriminate | vm_compute; reflexivity].
+Qed.
+
+(* class changeset-empty-discussion: a non-nil empty discussion comes back nil *)
+Lemma empty_discussion_refuted :
+  wfb gen_schema "Changeset" w_empty_discussion = false /\
+  exists v', comes_back "Changeset" w_empty_discussion = Ok v' /\ v' <> w_empty_discussion
+             /\ v' = mk gen_schema "Changeset" [("ID", VInt 2)].
+Proof.
+  split; [vm_compute; reflexivity|]. eexists. split; [vm_compute; reflexivity|].
+  split; [vm_compute; discriminate | vm_compute; reflexivity].
+Qed.
+
+(* non-trivial well-formed containers (non-vacuity of the container theorems) *)
+Definition w_node (i : Z) : value := mk gen_schema "Node" [("ID", VInt i); ("Visible", VBool true); ("Version", VInt 2)].
+Definition w_block : value := Eval vm_compute in
+  mk gen_schema "OSM" [("Bounds", VPtr (Some w_bounds)); ("Nodes", VList [VPtr (Some (w_node 1)); VPtr (Some (w_node 2))])].
+Definition w_created : value := Eval vm_compute in mk gen_schema "OSM" [("Nodes", VList [VPtr (Some (w_node 7))])].
+Definition w_diff : value := Eval vm_compute in
+  mk gen_schema "Diff"
+     [("Actions", VList [mk gen_schema "Action" [("Type", VStr [99]); ("OSM", VPtr (Some w_created))];
+                         mk gen_schema "Action" [("Type", VStr [109]); ("Old", VPtr (Some w_block)); ("New", VPtr (Some w_block))]])].
+Definition w_osm_full : value := Eval vm_compute in
+  mk gen_schema "OSM" [("Version", VStr [48]); ("Bounds", VPtr (Some w_bounds));
+                       ("Nodes", VList [VPtr (Some (w_node 1))]);
+                       ("Notes", VList [VPtr (Some (mk gen_schema "Note" [("ID", VInt 3)]))])].
+
+Lemma containers_nonvacuous :
+  wfb gen_schema "Diff" w_diff = true /\ comes_back "Diff" w_diff = Ok w_diff /\
+  wfb gen_schema "OSM" w_osm_full = true /\ comes_back "OSM" w_osm_full = Ok w_osm_full.
+Proof. repeat split; vm_compute; reflexivity. Qed.
